@@ -82,11 +82,15 @@ coap_mid_t __real_coap_retransmit(coap_context_t *context, coap_queue_t *node);
 static long retx_mid = -1;       /* mid of the node coap_retransmit is working on */
 
 static int peer_of_addr(const coap_address_t *a) {
-  int c = (int)ntohs(a->addr.sin.sin_port) - 40000;
-  if (c >= 0 && c < MAXOBS) return c;
-  for (c = 0; c < ncli; c++)
-    if (cls[c] && coap_address_equals(&cls[c]->addr_info.local, a)) return c;
-  return -1;
+  int c;
+  if (ncli > 0) {
+    /* real clients: their sockets have kernel-chosen ports (which may fall into 40000..40003) */
+    for (c = 0; c < ncli; c++)
+      if (cls[c] && coap_address_equals(&cls[c]->addr_info.local, a)) return c;
+    return -1;
+  }
+  c = (int)ntohs(a->addr.sin.sin_port) - 40000;
+  return (c >= 0 && c < MAXOBS) ? c : -1;
 }
 
 static coap_session_t *sess_of(int c) {
